@@ -455,6 +455,51 @@ def _is_parent_walk(loop):
     return False
 
 
+def _is_progress_loop(loop):
+    """while len(A) < len(B):  every pass through the body either leaves (raise / return / break) or appends to A at least once,
+    and B is not changed: A grows by one or more per iteration, so the loop ends after at most len(B) iterations."""
+    t = loop.test
+    if not (isinstance(t, ast.Compare) and len(t.ops) == 1 and isinstance(t.ops[0], (ast.Lt, ast.NotEq)) and isinstance(t.left, ast.Call) and norm(t.left.func) == "len"
+            and isinstance(t.comparators[0], ast.Call) and norm(t.comparators[0].func) == "len" and len(t.left.args) == 1 and len(t.comparators[0].args) == 1):
+        return False
+    a, b = norm(t.left.args[0]), norm(t.comparators[0].args[0])
+    body = ast.Module(body=loop.body, type_ignores=[])
+    # B (and A, except by append) untouched
+    for x in ast.walk(body):
+        if isinstance(x, (ast.Assign, ast.AugAssign)):
+            tg = x.targets if isinstance(x, ast.Assign) else [x.target]
+            if any(norm(y) in (a, b) for y in tg):
+                return False
+        if isinstance(x, ast.Call) and isinstance(x.func, ast.Attribute) and norm(x.func.value) == b and x.func.attr in ("add", "update", "append", "extend", "insert"):
+            return False
+        if isinstance(x, ast.Call) and isinstance(x.func, ast.Attribute) and norm(x.func.value) == a and x.func.attr in ("pop", "remove", "clear"):
+            return False
+
+    def progresses(stmts):
+        """True if every path through *stmts* that falls off the end has appended to A; leaving paths are fine"""
+        done = False
+        for st in stmts:
+            if isinstance(st, (ast.Raise, ast.Return, ast.Break)):
+                return True
+            if isinstance(st, ast.Continue):
+                return done
+            if isinstance(st, ast.Expr) and isinstance(st.value, ast.Call) and isinstance(st.value.func, ast.Attribute) and st.value.func.attr in ("append", "extend") \
+                    and norm(st.value.func.value) == a:
+                done = True
+            elif isinstance(st, ast.If):
+                if progresses(st.body) and progresses(st.orelse) and st.orelse:
+                    done = True
+                elif progresses(st.body) and not st.orelse and all(isinstance(x, (ast.Raise, ast.Return, ast.Break)) for x in st.body[-1:]):
+                    pass    # a guard that leaves
+            elif isinstance(st, ast.For):
+                # for .. : if c: A.append(x); break   else: raise
+                app_break = any(isinstance(i, ast.If) and progresses(i.body) and any(isinstance(x, ast.Break) for x in i.body) for i in ast.walk(st))
+                if st.orelse and progresses(st.orelse) and app_break:
+                    done = True
+        return done
+    return progresses(loop.body)
+
+
 def r10e(repo, chk):
     for mn in repo.module_names():
         if mn in ("structures_generated", "types_generated") or mn in NOT_REACHABLE:
@@ -470,6 +515,9 @@ def r10e(repo, chk):
             kind = AUDITED_LOOPS.get((mn, q))
             if kind is None and _is_parent_walk(loop):
                 chk.ok("R10.e", key + " [recognised: walk up the parent chain]", {"kind": "parent (auto)"})
+                continue
+            if kind is None and _is_progress_loop(loop):
+                chk.ok("R10.e", key + " [recognised: grows a list towards a fixed length or leaves]", {"kind": "progress (auto)"})
                 continue
             if kind is None:
                 chk.bad("R10.e", key, "while loop on the compile_code path that is not in the audited inventory (termination not argued)", None, where)
